@@ -174,7 +174,7 @@ def gen_plan(rng, tier):
                 ops.append(["range", i, _pair(rng, lo, hi, rng.choice([style, "int"]))]
                            + rng.choice([[], [], [], ["tuple"], ["int"]]))
         elif r < copy_p + nice_p + 0.40 + clamp_p:
-            ops.append(["clamp", i, rng.random() < 0.7])
+            ops.append(["clamp", i, rng.choice([True, True, True, False, False, 2, "yes", 0.5, 0, ""])])
         elif r < copy_p + nice_p + 0.40 + clamp_p + fault_p:
             ops.append(rng.choice([["bad_nice", i], ["bad_domain", i], ["bad_domain", i, "none"]]))
         elif r < copy_p + nice_p + 0.40 + clamp_p + fault_p + 0.05 and pool > 1:
@@ -183,7 +183,8 @@ def gen_plan(rng, tier):
         elif pool < max_pool and rng.random() < 0.3:
             if rng.random() < 0.3:
                 ops.append(["new", "args", _pair(rng, lo, hi, style), _pair(rng, lo, hi, rng.choice([style, "int"])),
-                            rng.random() < 0.3, rng.randrange(pool) if rng.random() < 0.4 else None])
+                            rng.random() < 0.3, rng.randrange(pool) if rng.random() < 0.4 else None,
+                            rng.choice(["all", "all", "clamp_only", "domain_only", "range_only"])])
             else:
                 ops.append(["new"])
             pool += 1
@@ -431,6 +432,7 @@ def _run(plan):
     next_family = 1
     generation = [0]
     exempt = {}      # id(scale) -> setters still needed after a rejected call
+    held = {}          # id(scale) -> (scale, its .scale accessor, its .invert accessor) taken earlier
     bystanders = []    # scales with a custom interpolator, alive but not judged
     passed_range = {}  # id(scale) -> the list object the caller last passed to range()
     last_snap = {}   # id(scale) -> snapshot taken at the last observation
@@ -466,7 +468,15 @@ def _run(plan):
                     rng_arg = src.range()
                     passed_range[id(src)] = None
                     bump("probe:range_list_shared_through_constructor")
-                new_scale = LinearScale(list(op[2]), rng_arg, None, op[4])
+                part = op[6] if len(op) > 6 else "all"
+                if part == "clamp_only":
+                    new_scale = LinearScale(clamp=op[4])
+                elif part == "domain_only":
+                    new_scale = LinearScale(list(op[2]), None, None, op[4])
+                elif part == "range_only":
+                    new_scale = LinearScale(None, rng_arg, None, op[4])
+                else:
+                    new_scale = LinearScale(list(op[2]), rng_arg, None, op[4])
                 pool.append(new_scale)
                 family.append(next_family)
                 generation.append(0)
@@ -551,6 +561,7 @@ def _run(plan):
                 pool[op[1]] = cur
                 last_snap.pop(id(target), None)
                 exempt.pop(id(target), None)
+                held.pop(id(target), None)
                 new_scale = cur
                 bump("probe:long_copy_chain")
             elif kind == "nudge":
@@ -574,6 +585,8 @@ def _run(plan):
                 exempt.pop(id(target), None)
                 last_snap.pop(id(target), None)
                 touched.discard(id(target))
+                held.pop(id(target), None)  # the accessors go with the scale: it must really die
+                passed_range.pop(id(target), None)
                 del pool[op[1]], family[op[1]], generation[op[1]]
                 target = None
             elif kind in ("bad_nice", "bad_domain"):
@@ -671,6 +684,30 @@ def _run(plan):
                 elif kind == "clamp" and bool(target.clamp()) != bool(op[2]):
                     v = ("I4_echo_clamp", {"set": op[2], "reported": bool(target.clamp())})
             snaps = {}
+            # accessors obtained earlier (f = s.scale; g = s.invert) must stay live
+            if v is None:
+                for k, sc in enumerate(pool):
+                    h = held.get(id(sc))
+                    if h is None:
+                        held[id(sc)] = (sc, sc.scale, sc.invert)
+                        continue
+                    d_, r_, _c = _reported(sc)
+                    try:
+                        xs_, ys_ = _probe_points(d_, r_, fr)
+                        for x_ in xs_[:5]:
+                            if _call(h[1], x_) != _call(sc.scale, x_):
+                                v = ("stale_accessor", {"scale": k, "accessor": "scale", "x": canon(x_),
+                                                        "held": _call(h[1], x_), "fresh": _call(sc.scale, x_), "op": op})
+                                break
+                        if v is None:
+                            for y_ in ys_[:3]:
+                                if _call(h[2], y_) != _call(sc.invert, y_):
+                                    v = ("stale_accessor", {"scale": k, "accessor": "invert", "y": canon(y_), "op": op})
+                                    break
+                    except (TypeError, ValueError, IndexError):
+                        pass
+                    if v is not None:
+                        break
             # I2 isolation: a scale that was not the target of any state-changing
             # op since the last observation is unchanged
             if v is None:
